@@ -7,7 +7,11 @@ import lexgen
 
 WORDS = [b"VOLTage", b"CURRent", b"MEASure", b"CONFigure", b"SYSTem", b"ERRor", b"NEXT", b"ALL", b"COUNt", b"RANGe", b"AUTO",
          b"A", b"AB", b"ABc", b"TRIGger", b"SOURce", b"LEVel", b"CHANnel", b"OUTPut", b"STATe", b"DC", b"AC", b"FREQuency",
-         b"INITiate", b"IMMediate", b"X", b"Y", b"ZERO", b"ONE", b"DELay", b"MODE", b"UPPer", b"LOWer", b"DATA", b"POINts"]
+         b"INITiate", b"IMMediate", b"X", b"Y", b"ZERO", b"ONE", b"DELay", b"MODE", b"UPPer", b"LOWer", b"DATA", b"POINts",
+         b"CALibration", b"CALCulate", b"SENSe", b"SENSOr"]
+# sibling families in which one short form is a proper prefix of another (CAL / CALC, A / AB, SENS / SENSO): a lookup that
+# stops at the first child whose short form is a PREFIX of the received mnemonic hides the later sibling
+PREFIX_FAMILIES = [(b"CALibration", b"CALCulate"), (b"A", b"AB"), (b"SENSe", b"SENSOr"), (b"AB", b"ABCd"), (b"OUT", b"OUTPut"), (b"X", b"XY2")]
 COMMON = [b"*IDN", b"*RST", b"*CLS", b"*OPC", b"*TST", b"*X1", b"*LONGCOMMAND1"]
 
 
@@ -85,6 +89,12 @@ class TreeGen:
                 has_dl = has_dl or d
                 if d and r.random() < 0.15: name = b""          # anonymous default leaf
                 out.append(self.leaf(name, d))
+        if r.random() < 0.12:                                    # a prefix family, in either order
+            fam = list(r.choice(PREFIX_FAMILIES))
+            if r.random() < 0.5: fam.reverse()
+            if not any(c[1] in fam for c in out):
+                for nm in fam:
+                    out.append(self.leaf(nm, False) if depth == 0 or r.random() < 0.6 else ("B", nm, False, self.children(depth - 1)))
         if r.random() < 0.5:                                     # "default node must be first"
             out.sort(key=lambda c: not c[2])
         return out
